@@ -104,9 +104,9 @@ LEVEL_TEXT = ('Coq theorems over ALL schedules (induction on the step relation o
               'Start();Join() hang of the saver before fix 05 (c17_saver_join_hang_before_fix). '
               'NOT proved for all schedules, only checked per enumerated schedule (scheduling points before every wrapped '
               'pthread call / select() and after every unlock; ASan in the harness child) by trace equality with the real '
-              'classes: ThreadPool exactly-once and no-lost-wake-up (c17_pool_exec_once / c17_pool_no_lost_wakeup are NOT '
-              'proved: two workers, plain closures, Init/Execute/JoinAll are modelled and checked against the real '
-              'ThreadPool); FutureImpl with more than two holders; ExecutorThread with callbacks that call Execute again '
+              'classes: ThreadPool: proved for all schedules and any number of closures (two workers): closures conserved, no '
+              'closure run twice, run by workers only, never by the caller of Execute (c17_pool_exec_once_partial); NOT proved: '
+              'queue empty / all run when JoinAll returns, and the pool wake-up invariant; FutureImpl with more than two holders; ExecutorThread with callbacks that call Execute again '
               '(execre); deadlock freedom of the SelectServer scenario beyond the wake-up invariant. NOT modelled: closures '
               'that block on a Future inside the pool, SelectServer::Terminate (unlocked m_is_running read), timeouts/other '
               'descriptors of the poller, FilePreferenceSaverThread::Synchronize, ExecutorThread::DrainCallbacks itself, '
